@@ -1400,7 +1400,7 @@ func ruleKeepOtherBase(c *Ctx, r *Rep, tier string) {
 		if !ok || (bo.Op != token.EQL && bo.Op != token.NEQ) {
 			return "", false
 		}
-		if !isInvokeOnField(insOf(bo.X), fCur, "Base") && !isInvokeOnField(insOf(bo.Y), fCur, "Base") {
+		if !isResultBase(c, insOf(bo.X), fCur) && !isResultBase(c, insOf(bo.Y), fCur) {
 			return "", false
 		}
 		ne := 0 // the successor on which the bases differ
@@ -2253,4 +2253,45 @@ func ruleReadFills(c *Ctx, r *Rep, tier string) {
 		}
 	}
 	r.Check(why == "", rule, key, c.Pos(ret.Pos()), fmt.Sprintf("each of the %d ways to the final return has the buffer full or an error recorded", len(rb.Preds)), why)
+}
+
+// isResultBase: ins is a call of Base() on the block a read-ahead result
+// carries – the Reader's current block (a load of the field), or the block that
+// (*decompressor).wait returned, whether or not it has been stored to the field
+// yet (a local in between is the same block).
+func isResultBase(c *Ctx, ins ssa.Instruction, fCur *types.Var) bool {
+	if ins == nil {
+		return false
+	}
+	if isInvokeOnField(ins, fCur, "Base") {
+		return true
+	}
+	call, ok := ins.(*ssa.Call)
+	if !ok || !call.Call.IsInvoke() || call.Call.Method.Name() != "Base" {
+		return false
+	}
+	wait := c.FuncOpt("bgzf", "(*decompressor).wait")
+	var fromWait func(v ssa.Value, depth int) bool
+	fromWait = func(v ssa.Value, depth int) bool {
+		if depth > 6 {
+			return false
+		}
+		switch x := v.(type) {
+		case *ssa.Extract:
+			if cl, ok := x.Tuple.(*ssa.Call); ok && x.Index == 0 && wait != nil && staticCallee(&cl.Call) == wait {
+				return true
+			}
+		case *ssa.Phi:
+			for _, e := range x.Edges {
+				if !fromWait(e, depth+1) {
+					return false
+				}
+			}
+			return len(x.Edges) > 0
+		case *ssa.ChangeInterface:
+			return fromWait(x.X, depth+1)
+		}
+		return false
+	}
+	return fromWait(call.Call.Value, 0)
 }
